@@ -54,7 +54,10 @@ PROP = {
             "master_replid AND master_replid2, the target double behind a loopback listener; position labelled with the current id or (failover pending) "
             "with the previous one, younger / older than staleCheckpointDuration or without _mtime, 1-3 DBs, a dead id sharing the key, one source node "
             "unreachable (gc must issue nothing); requests + position after every prefix vs the Lean model of gcStaleCp with live = every reported id; "
-            "monitor: the next start after every prefix reads a position not smaller, same DB. "
+            "monitor: the next start after every prefix reads a position not smaller, same DB. Error path: every request of the gc pass (scan requests "
+            "included: hgetall of the hash, info keyspace, select, exists, hgetall of the entries, hdel) gets an error reply in turn (connection stays usable), "
+            "the run goes on as the code does, then the next start on what it left must read a position not smaller, same DB (gc-error-reply-loses-live-position; "
+            "quick tier: 8 requests per case spread over the pass, all for corpus cases; position in DB 0 in >= 1/3 of the cases). "
             "c17gs (gc while the sender runs): the real sendAof under virtual time replays a stream visiting several source DBs, the real gc runs between two "
             "batches, the stream returns to a DB visited before; after EVERY request prefix a fresh RedisOutput.StartPoint must still read the session's run id "
             "and a not smaller offset. "
